@@ -56,6 +56,9 @@ type SetVal struct {
 type BusSub struct {
 	Wild bool `json:"wild,omitempty"` // subscribes to "*" instead of "update"
 	Join int  `json:"join,omitempty"` // index of the first call it listens to (0 = from the start)
+	// Stall (late subscribers): it subscribes while the bus is blocked on another subscriber whose buffer is full
+	// (events queue up behind the blocked delivery); that subscriber is drained only after the next call returned
+	Stall bool `json:"stall,omitempty"`
 }
 
 // GQLSub is one GraphQL subscription.
@@ -269,6 +272,7 @@ func drawCase(t *rapid.T) Case {
 		s := BusSub{Wild: rapid.IntRange(0, 4).Draw(t, "wild") == 0}
 		if i > 0 && rapid.IntRange(0, 3).Draw(t, "late") == 0 {
 			s.Join = rapid.IntRange(1, nops).Draw(t, "join")
+			s.Stall = !c.Fault && rapid.IntRange(0, 2).Draw(t, "stall") == 0
 		}
 		c.Subs = append(c.Subs, s)
 	}
